@@ -160,7 +160,9 @@ def run_c15(tier, seed):
     for r in srows:
         if r.get("error"):
             continue
-        if r.get("problems"):
+        if r.get("problems") and r.get("scenario") == "close-error":
+            chk.violation("stop-with-close-error", "Stop on a server where closing one connection reports an error (three plain clients, one TLS client still shaking hands): %s" % " ; ".join(r["problems"])[:500], dict(row=r))
+        elif r.get("problems"):
             chk.violation("stop-vs-registration", "a TLS client accepted before Stop and registered while Stop was closing another connection: %s" % " ; ".join(r["problems"])[:500], dict(row=r))
         else:
             validated += 1
